@@ -27,7 +27,7 @@ func init() {
 					"A violation of the real run is attributed to known finding F1 iff it disappears in the counterfactual run and every parent index the hook saw was i/2 or (i-1)/2; any violation in a counterfactual run is a VIOLATION. " +
 					"heapq.Sort: every input of length <= 7 over 4 values (exhaustive) and random inputs up to 2000. " +
 					"distinct = hash of the op list; non-trivial = the queue reached >= 16 elements or an interior Remove(i) occurred",
-				Required:     []string{"histories", "histories_size_ge16", "interior_removes", "pushup_even_index_calls", "reorders", "sort_inputs", "drains", "large_queue_histories", "big_element_histories"},
+				Required:     []string{"histories", "histories_size_ge16", "interior_removes", "pushup_even_index_calls", "reorders", "sort_inputs", "drains", "large_queue_histories", "big_element_histories", "sparse_observation_histories"},
 				Exhaustive:   false,
 				Assumptions:  []string{"reference: map of held {Key,Tag} elements; minimality is checked against all held elements under the comparison currently installed", "known finding F1 is excused only through the counterfactual switch in heapq/verif_on.go"},
 				CoverPkgs:    []string{"github.com/creachadair/mds/heapq"},
@@ -116,6 +116,10 @@ func runC05(c *fw.Ctx) {
 		keyRange := []int{4, 12, 50, 1000}[r.IntN(4)]
 		o := opt
 		o.update = r.IntN(3) == 0
+		o.sparse = k%4 == 1
+		if o.sparse {
+			c.Add("sparse_observation_histories", 1)
+		}
 		ops := heapGenOps(r, nops, keyRange, false)
 		viol, st := c05attribute(c, ops, o, "C05")
 		c.Add("histories", 1)
